@@ -80,8 +80,8 @@ type view struct {
 	hasS     bool
 	elemBox  []box // elements of kind heading/list (for the overlap class)
 	elemKind []string
-	allKinds []string   // kind of every element, parallel to strs (element views only)
-	paras    []paraInfo // paragraphs the element tree was built from (element views only; classification aid)
+	allKinds []string            // kind of every element, parallel to strs (element views only)
+	paras    []paraInfo          // paragraphs the element tree was built from (element views only; classification aid)
 	part     int                 // 1: detectors fed with fragments, 2: public API on a PDF
 	input    []text.TextFragment // the fragments the layout code was given (Part 1: the specification; Part 2: Fragments())
 	err      error
